@@ -174,6 +174,11 @@ class K(_Interned):
         return "K(%s)" % self.kind
 
 
+def _is_ground(v):
+    """a constant, or a tuple of constants (usable as a set member / dict key of a tracked collection)"""
+    return isinstance(v, C) or (isinstance(v, TUP) and all(isinstance(x, C) for x in v.items))
+
+
 def kind_of(v):
     if isinstance(v, K):
         return v.kind
@@ -408,6 +413,15 @@ class Interp:
                 if isinstance(v, C) and isinstance(v.v, int):
                     return v
                 return 'U'
+            if isinstance(f, ast.Attribute) and f.attr in ("isdigit", "isnumeric", "isdecimal", "isalpha", "startswith", "endswith") \
+                    and not e.keywords and len(e.args) <= 1:
+                base = self.ev(f.value, st, ctx)
+                if isinstance(base, C) and isinstance(base.v, str):
+                    if not e.args:
+                        return 'T' if getattr(base.v, f.attr)() else 'F'
+                    a0 = self.ev(e.args[0], st, ctx)
+                    if isinstance(a0, C) and isinstance(a0.v, str) and f.attr in ("startswith", "endswith"):
+                        return 'T' if getattr(base.v, f.attr)(a0.v) else 'F'
             if isinstance(f, ast.Attribute) and f.attr == "group" and len(e.args) == 1:
                 mo = self.ev(f.value, st, ctx)
                 idx = self.ev(e.args[0], st, ctx)
@@ -431,6 +445,8 @@ class Interp:
                     if ('a', ctx.cls.name, n.v) in st:
                         return st[('a', ctx.cls.name, n.v)]
                     if isinstance(e.args[1], ast.Constant):
+                        if len(e.args) > 2 and not self._attr_assigned_anywhere(ctx.cls, n.v):
+                            return self.ev(e.args[2], st, ctx)      # nobody ever sets it: always the default
                         return 'U'      # a data attribute the analysis does not track: may or may not be set
                     if len(e.args) > 2:
                         return self.ev(e.args[2], st, ctx)   # computed name (dispatch idiom): no such method
@@ -476,8 +492,10 @@ class Interp:
             if isinstance(op, (ast.Eq, ast.NotEq)) and isinstance(l, C) and isinstance(r, C):
                 res = 'T' if l == r else 'F'
                 return res if isinstance(op, ast.Eq) else inv(res)
+            if isinstance(op, (ast.Eq, ast.NotEq)) and ((l == C(None) and truth(r) == 'T') or (r == C(None) and truth(l) == 'T')):
+                return 'F' if isinstance(op, ast.Eq) else 'T'       # a non-empty object never equals None
             if isinstance(op, (ast.In, ast.NotIn)):
-                if isinstance(r, FS) and isinstance(l, C):
+                if isinstance(r, FS) and _is_ground(l):
                     res = 'T' if l in r.s else 'F'
                     return res if isinstance(op, ast.In) else inv(res)
                 if isinstance(r, D) and isinstance(l, C):
@@ -485,6 +503,24 @@ class Interp:
                     return res if isinstance(op, ast.In) else inv(res)
             return 'U'
         return 'U'
+
+    def _attr_assigned_anywhere(self, cls, attr):
+        cache = self.__dict__.setdefault("_assigned_cache", {})
+        k = (cls.name, attr)
+        if k not in cache:
+            found = attr in cls.attr_fields or attr.lstrip("_") in [f.lstrip("_") for f in cls.attr_fields]
+            for c in self.ALL.values():
+                if found:
+                    break
+                for n in ast.walk(c.node):
+                    if isinstance(n, ast.Attribute) and n.attr == attr and isinstance(n.ctx, (ast.Store, ast.Del)):
+                        found = True
+                        break
+                    if isinstance(n, ast.Call) and isinstance(n.func, ast.Name) and n.func.id == "setattr":
+                        found = True
+                        break
+            cache[k] = found
+        return cache[k]
 
     # -- call resolution ---------------------------------------------------
     def resolve(self, call, ctx):
@@ -567,7 +603,8 @@ class Interp:
             st[('e', 'app_closed')] = 'T'
         elif name in ("got_code", "got_key", "got_verifier", "got_versions"):
             k = ('e', 'ev_' + name)
-            if st.get(k) == 'T':
+            if st.get(k) == 'T' and st.get(('e', 'list_overflow')) != 'T':
+                # (after a tracked queue overflowed its bound, multiplicities can no longer be read off the abstraction)
                 self.add_viol("event-twice", name)
             st[k] = 'T'
             need = {"got_key": "got_code", "got_verifier": "got_key", "got_versions": "got_verifier"}.get(name)
@@ -684,13 +721,13 @@ class Interp:
             if isinstance(cur, FS):
                 if f.attr == "add" and argvals:
                     st = st.cp()
-                    st[k] = FS(cur.s | {argvals[0]}) if isinstance(argvals[0], C) else 'U'
+                    st[k] = FS(cur.s | {argvals[0]}) if _is_ground(argvals[0]) else 'U'
                     return [(st, 'U', None)]
                 if f.attr in ("clear", "discard", "remove", "pop", "update", "difference_update", "intersection_update"):
                     st = st.cp()
                     if f.attr == "clear":
                         st[k] = FS()
-                    elif f.attr in ("discard", "remove") and argvals and isinstance(argvals[0], C):
+                    elif f.attr in ("discard", "remove") and argvals and _is_ground(argvals[0]):
                         st[k] = FS(cur.s - {argvals[0]})
                     else:
                         st[k] = 'U'
@@ -698,7 +735,12 @@ class Interp:
             if isinstance(cur, FL):
                 if f.attr == "append" and argvals:
                     st = st.cp()
-                    st[k] = FL(cur.items + (argvals[0],)) if len(cur.items) < self.list_bound else 'U'
+                    if len(cur.items) < self.list_bound:
+                        st[k] = FL(cur.items + (argvals[0],))
+                    else:
+                        # the bounded list overflows: its content is unknown from here on, and so is how often each item is in it
+                        st[k] = 'U'
+                        st[('e', 'list_overflow')] = 'T'
                     return [(st, 'U', None)]
                 if f.attr == "clear":
                     st = st.cp()
